@@ -687,6 +687,10 @@ func matchesCallbackPath(log telemetry.Logger, config *oidcv1.OIDCConfig, httpRe
 	confURI, _ := url.Parse(config.GetCallbackUri())
 	confPort := confURI.Port()
 	confHost := confURI.Hostname()
+	if strings.Contains(confHost, ":") {
+		// IPv6 literal: the Host header carries it in brackets
+		confHost = "[" + confHost + "]"
+	}
 	confScheme := confURI.Scheme
 	confPath := confURI.Path
 	confHostAndPort := confHost
